@@ -7,7 +7,7 @@ def main(chk: core.Check, replay):
     if replay:
         return core.replay_generic(chk, replay)
     quick = chk.tier == "quick"
-    consts = dict(CONSTS, NInter=1, FreeSchedule=False, EmitMod=0, BaseMod=307 if quick else 97)
+    consts = dict(CONSTS, NInter=1, FreeSchedule=False, EmitMod=0, ExtraLayouts='{"headed"}', BaseMod=307 if quick else 97)
     cfg = tlc.make_cfg(spec="DSpec", constants=consts, invariants=["C17_Inert", "DEmit"])
     res = tlc.run_tlc("MC_Layout", cfg, workers=chk.nproc, timeout=1200, constants_for_summary=consts)
     recs = res.records
@@ -18,10 +18,13 @@ def main(chk: core.Check, replay):
     base = {}
     for r in recs:
         base.setdefault(modelcase.render_text(r["blocks"]), []).append(r)
-    split = [k for k in sorted(base) if 'expressions("' in k]
+    headed = [k for k in sorted(base) if 'expressions("M")' in k]
+    split = [k for k in sorted(base) if 'expressions("' in k and k not in headed]
     other = [k for k in sorted(base) if 'expressions("' not in k]
-    n = 3 if quick else 24
-    keys = split[: n - n // 2] + other[: n // 2]
+    n = 1 if quick else 8
+    keys = headed[:n] + split[:n] + other[:n]
+    if not (headed and split and other):
+        raise core.MachineryFailure("a component layout has no base model")
     use = [r for k in keys for r in base[k]]
     out = layoutdeco.replay(use, chk.nproc)
     chk.replayed += len(out)
@@ -35,7 +38,7 @@ def main(chk: core.Check, replay):
             chk.violation(f"C17:{pr['kind']}:{o['deco']['place']}:{s!r}", {**o, "problem": pr},
                           f"decoration {o['deco']['place']} with comment text {s!r}: {pr['kind']} "
                           f"{pr.get('message', '')}{pr.get('diff', '')}"[:300])
-    chk.extra["decorations"] = {"base_models": len(keys), "multi_component_base_models": len(split[: n - n // 2]),
+    chk.extra["decorations"] = {"base_models": len(keys), "multi_component_base_models": len(split[:n]), "one_headed_component_base_models": len(headed[:n]),
                                 "comment_strings": len(layoutdeco.STRINGS), "by_place": places}
     chk.sample({"decorated_text": out[len(out) // 2]["text"], "decoration": out[len(out) // 2]["deco"]})
 
